@@ -518,6 +518,12 @@ class Interp:
             return self.cast(self.operand(fr, r[1]), r[2], r[3])
         if k == 'closure':
             return Closure(r[1], [self.operand(fr, a) for a in r[2]], fr.env)
+        if k == 'repeat':
+            n = int(str(r[2]).split('_')[0]) if str(r[2]).split('_')[0].isdigit() else None
+            if n is None:
+                raise Unsupported('repeat count ' + str(r[2]))
+            v = self.operand(fr, r[1])
+            return VecVal([clone_val(v) for _ in range(n)])
         if k == 'len':
             return len(self.read(fr, r[1]).items)
         if k == 'useplace':
